@@ -193,8 +193,15 @@ func AcceptReq(r *http.Request, opts *websocket.AcceptOptions, pipelined []byte)
 	if len(pipelined) > 0 {
 		peer.Write(pipelined)
 	}
+	s, err := AcceptOn(lib, r, opts)
+	s.Peer = peer
+	return s, err
+}
+
+// AcceptOn runs Accept with lib as the hijacked connection.
+func AcceptOn(lib *memconn.End, r *http.Request, opts *websocket.AcceptOptions) (*Server, error) {
 	w := &RespWriter{H: http.Header{}, lib: lib}
-	s := &Server{Peer: peer, Lib: lib, W: w, Req: r}
+	s := &Server{Lib: lib, W: w, Req: r}
 	c, err := websocket.Accept(w, r, opts)
 	if err != nil {
 		if !w.Hijacked {
